@@ -32,9 +32,9 @@ type Result struct {
 	Module         string         `json:"module"`
 	Seed           int64          `json:"seed"`
 	Tier           string         `json:"tier"`
-	Ops            int            `json:"ops"`              // correspondence ops sent to the model
-	OracleCases    int            `json:"oracle_cases"`     // direct-oracle evaluations
-	Distinct       int            `json:"distinct"`         // distinct non-trivial cases
+	Ops            int            `json:"ops"`          // correspondence ops sent to the model
+	OracleCases    int            `json:"oracle_cases"` // direct-oracle evaluations
+	Distinct       int            `json:"distinct"`     // distinct non-trivial cases
 	Rule           string         `json:"rule"`
 	Exhaustive     bool           `json:"exhaustive"`
 	Disagreements  []Case         `json:"disagreements"`
@@ -42,10 +42,13 @@ type Result struct {
 	Samples        []string       `json:"samples"`
 	Dist           map[string]int `json:"distribution"`
 	Unmodelled     map[string]int `json:"unmodelled"`
-	WallS          float64        `json:"wall_s"`
-	distinctSet    map[string]struct{}
-	start          time.Time
-	maxCases       int
+	// table groups (module-dir/group) whose whole content the harness confirmed against the
+	// running code through the model (see codec/tables.go)
+	TablesConfirmed []string `json:"tables_confirmed,omitempty"`
+	WallS           float64  `json:"wall_s"`
+	distinctSet     map[string]struct{}
+	start           time.Time
+	maxCases        int
 }
 
 func NewResult(prop, module string, seed int64, tier string) *Result {
